@@ -8,6 +8,9 @@ import sys
 VERIF = os.path.dirname(os.path.dirname(os.path.abspath(__file__)))
 sys.path.insert(0, VERIF)
 
+# properties whose check is complete, green on the unchanged tree and reviewed by the lead
+CLAIMED = ['C14', 'C19']
+
 NOT_APPLICABLE = {
 }
 
@@ -27,7 +30,7 @@ def main():
         exec(compile(src[start:src.index('\n}\n', start) + 3], fn, 'exec'), ns)
         m = ns['META']
         pid = m['property_id']
-        if not m.get('claimed', True):
+        if pid not in CLAIMED:
             continue
         claimed.add(pid)
         checks.append({
